@@ -66,9 +66,10 @@ type seen struct {
 }
 
 type rig struct {
-	calls []seen
-	srv   *jrpc2.Server
-	asg   []string
+	calls  []seen
+	srv    *jrpc2.Server
+	asg    []string
+	asgReq []string // per lookup: method | id | params of the inbound request the assigner saw
 }
 
 // spy wraps an assigner to record what InboundRequest(ctx) shows during assignment.
@@ -83,6 +84,11 @@ func (s spy) Assign(ctx context.Context, method string) jrpc2.Handler {
 		m = req.Method()
 	}
 	s.r.asg = append(s.r.asg, method+"|"+m)
+	if req := jrpc2.InboundRequest(ctx); req != nil {
+		s.r.asgReq = append(s.r.asgReq, method+"|"+req.ID()+"|"+req.ParamString())
+	} else {
+		s.r.asgReq = append(s.r.asgReq, method+"|<no inbound request>")
+	}
 	return s.inner.Assign(ctx, method)
 }
 func (s spy) Names() []string { return s.inner.(jrpc2.Namer).Names() }
@@ -260,6 +266,73 @@ func TestDispatch(t *testing.T) {
 					}
 					if len(res.Samples) < 4 && c.K == "handler" {
 						res.Samples = append(res.Samples, name+" -> "+wantPath)
+					}
+				}
+				// batches: one lookup per member - also for a name that was just looked up - each with ITS inbound request
+				// available; every member reaches the handler of its own name with its own id and parameters
+				var hname, hpath string
+				for _, c := range tab.Cells {
+					if c.Mux == mi+1 && c.Builtin == builtin && c.K == "handler" && !(builtin && strings.HasPrefix(join(c.Name), "rpc.")) {
+						hname = join(c.Name)
+						hpath = ""
+						for _, p := range c.Path {
+							hpath += "/" + join(p)
+						}
+						break
+					}
+				}
+				if hname != "" && shard == 0 {
+					hj, _ := json.Marshal(hname)
+					nf := "no.such.method"
+					type mem struct {
+						name, id, params string
+					}
+					for bi, b := range [][]mem{
+						{{hname, "1", `{"n":1}`}, {hname, "2", `{"n":2}`}, {hname, "", `{"n":3}`}, {nf, "4", `{"n":4}`}, {nf, "5", `{"n":5}`}, {hname, "6", `{"n":6}`}},
+						{{nf, "", `{"n":1}`}, {hname, "", `{"n":2}`}, {hname, "3", `{"n":3}`}, {hname, "", `{"n":4}`}},
+					} {
+						var parts, wantAsg []string
+						for _, m := range b {
+							mj := string(hj)
+							if m.name == nf {
+								mj = strconv.Quote(nf)
+							}
+							if m.id == "" {
+								parts = append(parts, fmt.Sprintf(`{"jsonrpc":"2.0","method":%s,"params":%s}`, mj, m.params))
+							} else {
+								parts = append(parts, fmt.Sprintf(`{"jsonrpc":"2.0","id":%s,"method":%s,"params":%s}`, m.id, mj, m.params))
+							}
+							wantAsg = append(wantAsg, m.name+"|"+m.id+"|"+m.params)
+						}
+						a0 := len(r.asgReq)
+						calls, outs, _ := feed("[" + strings.Join(parts, ",") + "]")
+						res.Evaluations++
+						gotAsg := append([]string(nil), r.asgReq[a0:]...)
+						cell := Cell{Mux: mi + 1, Builtin: builtin, Name: []string{fmt.Sprintf("batch %d", bi)}}
+						if fmt.Sprint(gotAsg) != fmt.Sprint(wantAsg) {
+							add(cell, fmt.Sprintf("assigner lookups %q, want one per member with its own inbound request: %q", gotAsg, wantAsg))
+						}
+						var wantCalls, gotCalls []string
+						for _, m := range b {
+							if m.name == hname {
+								wantCalls = append(wantCalls, hpath+"|"+m.id+"|"+m.params)
+							}
+						}
+						for _, c := range calls {
+							ok := ""
+							if !c.inbOK || !c.srvOK {
+								ok = "|context values wrong"
+							}
+							gotCalls = append(gotCalls, c.path+"|"+c.id+"|"+c.params+ok)
+						}
+						sort.Strings(wantCalls)
+						sort.Strings(gotCalls)
+						if fmt.Sprint(gotCalls) != fmt.Sprint(wantCalls) {
+							add(cell, fmt.Sprintf("handlers ran %q, want %q", gotCalls, wantCalls))
+						}
+						if len(outs) != 1 {
+							add(cell, fmt.Sprintf("%d output records for one batch", len(outs)))
+						}
 					}
 				}
 				ch.PeerClose()
